@@ -322,7 +322,12 @@ def run_case(case, ctx):
     n, k = T.shape
     cont = case["cont"]
     ntr = TR.shape[0]
-    yt, yp, yb, ytr = _wrap(T, cont, ntr), _wrap(P, cont, ntr), _wrap(B, cont, ntr), _wrap(TR, cont, 0)
+    if case["family"] == "ints" and case["dseed"] % 2 == 0:
+        # integer-typed arguments (counts), not only integer values: the metrics are real-valued
+        yt, yp, yb, ytr = (_wrap(a.astype(np.int64), cont, st) for a, st in ((T, ntr), (P, ntr), (B, ntr), (TR, 0)))
+        ctx.tag("integer-typed-arguments")
+    else:
+        yt, yp, yb, ytr = _wrap(T, cont, ntr), _wrap(P, cont, ntr), _wrap(B, cont, ntr), _wrap(TR, cont, 0)
     mo = case["multioutput"]
     moarg = mo if mo != "weights" else mow
     f = getattr(M, fn)
